@@ -33,6 +33,8 @@ pub enum Op {
     Flags(u16),
     Prefix(Option<u8>),
     Interval(Option<u64>),
+    /// an interval of k * 2^64 + r milliseconds (k >= 1): beyond what a 64-bit count of milliseconds holds
+    IntervalHuge(u8, u16),
     Iname(Option<String>),
     Admin(Option<String>),
     Reqi(u8),
@@ -70,6 +72,8 @@ pub struct Model {
     pub flags: u16,
     pub prefix: Option<u8>,
     pub interval: Option<u64>,
+    /// set by IntervalHuge (interval is then u64::MAX: certainly not representable)
+    pub interval_huge: Option<Duration>,
     pub iname: Option<String>,
     pub admin: Option<String>,
     pub reqi: u8,
@@ -78,7 +82,7 @@ pub struct Model {
 
 impl Default for Model {
     fn default() -> Self {
-        Model { udp: false, udp_local: None, retain: false, flags: 0, prefix: None, interval: None, iname: None, admin: None, reqi: 0, compressed: true }
+        Model { udp: false, udp_local: None, retain: false, flags: 0, prefix: None, interval: None, interval_huge: None, iname: None, admin: None, reqi: 0, compressed: true }
     }
 }
 
@@ -130,7 +134,15 @@ pub fn apply(ops: &[Op], remote_addr: SocketAddr) -> Result<(Builder, Model), St
             },
             Op::Interval(i) => {
                 m.interval = *i;
+                m.interval_huge = None;
                 b.isi_interval(i.map(Duration::from_millis))
+            },
+            Op::IntervalHuge(k, r) => {
+                let ms: u128 = ((*k).max(1) as u128) * (1u128 << 64) + *r as u128;
+                let d = Duration::new((ms / 1000) as u64, ((ms % 1000) as u32) * 1_000_000);
+                m.interval = Some(u64::MAX);
+                m.interval_huge = Some(d);
+                b.isi_interval(Some(d))
             },
             Op::Iname(n) => {
                 m.iname = n.clone();
@@ -204,7 +216,7 @@ pub fn model_isi(m: &Model) -> Isi {
         flags: if m.retain { IsiFlags::from_bits_retain(m.flags) } else { IsiFlags::from_bits_truncate(m.flags) },
         version: 9,
         prefix: m.prefix.map(|c| c as char).unwrap_or('\0'),
-        interval: Duration::from_millis(m.interval.unwrap_or(0)),
+        interval: m.interval_huge.unwrap_or(Duration::from_millis(m.interval.unwrap_or(0))),
         admin: m.admin.clone().unwrap_or_default(),
         iname: m.iname.clone().unwrap_or_else(|| "insim.rs".to_string()),
     }
@@ -266,6 +278,9 @@ fn op_from(s: &str) -> Option<Op> {
                 Op::Flags(i.parse().ok()?)
             } else if let Some(i) = inner("Prefix(") {
                 Op::Prefix(opt_num(&i)?.map(|v| v as u8))
+            } else if let Some(i) = inner("IntervalHuge(") {
+                let (a, b) = i.split_once(", ")?;
+                Op::IntervalHuge(a.parse().ok()?, b.parse().ok()?)
             } else if let Some(i) = inner("Interval(") {
                 Op::Interval(opt_num(&i)?)
             } else if let Some(i) = inner("Iname(") {
@@ -614,7 +629,9 @@ fn op_strategy(with_transport: bool) -> impl Strategy<Value = Op> {
         1 => prop_oneof![Just(None), (0x21u8..0x7f).prop_map(Some)].prop_map(Op::Prefix),
         1 => prop_oneof![2 => Just(None), 4 => (0u64..65536).prop_map(Some), 1 => Just(Some(65535u64)), 1 => Just(Some(65536u64)), 1 => (65536u64..4_000_000).prop_map(Some),
             // values a narrowing step would wrap into the 16-bit field
-            1 => (prop::sample::select(vec![16u32, 32, 48, 63]), 1u64..4, 0u64..70_000).prop_map(|(w, k, r)| Some((k << w).saturating_add(r)))].prop_map(Op::Interval),
+            1 => (prop::sample::select(vec![16u32, 32, 48, 63]), 1u64..4, 0u64..70_000).prop_map(|(w, k, r)| Some((k << w).saturating_add(r)))]
+            // ... and now and then an interval of k * 2^64 + r milliseconds
+            .prop_flat_map(|i| (Just(i), any::<u8>(), 1u8..4, prop_oneof![Just(0u16), Just(40u16), any::<u16>()])).prop_map(|(i, pick, k, r)| if pick % 8 == 0 { Op::IntervalHuge(k, r) } else { Op::Interval(i) }),
         1 => text_opt(20).prop_map(Op::Iname),
         1 => text_opt(20).prop_map(Op::Admin),
         1 => any::<u8>().prop_map(Op::Reqi),
